@@ -486,7 +486,13 @@ def _build_kind(W, mk, kind, c_sys, m, **kw):
     if kind == "gate":
         return obj_gate(W, mk, c_sys, **kw)
     shape = tuple(m) if isinstance(m, tuple) else None
-    return obj_mprocess(W, mk, c_sys, m[0] * m[1] if shape else m, shape=shape, **kw)
+    mp = obj_mprocess(W, mk, c_sys, m[0] * m[1] if shape else m, shape=shape, **kw)
+    if shape:
+        # (path budget) the leading shape[0] elements are fixed completely positive maps, the remaining ones symbolic
+        n = mp.hss[0].shape[0]
+        for x in range(shape[0]):
+            mp.hss[x][:, :] = W.np.eye(n) / (4 * (x + 1))
+    return mp
 
 
 class TypePhysical(WithAtol):
